@@ -32,6 +32,7 @@ func c18Docs() []string {
 		"2022-06-13\n    999h\n\n2022-06-14\n    -999h59m\n\n2022-06-15\n    0m\n    8:00-8:00\n",
 		"2020-02-29\n    10h #leap\n\n2020-03-01 (1m!)\n    10m #leap #march\n\n2020-12-28\n    1h #w53\n\n2021-01-03\n\n2021-01-04 (100h!)\n    1h #w1\n",
 		"2022/06/15\n    9:00am - 12:00pm #ampm\n    12:00pm-?\n\n2022/06/14\n    <11:00pm - 1:00am #ampm\n        second line #deep=\"x y\"\n",
+		"2022-06-15\n    1h #ort=zürich #名=値\n    2h #ort=\"köln süd\" #名='値 2'\n    3h #ort=a\n\n2022-06-14\n#ort=zürich\n    30m #ß=ẞ\n",
 		"2022-06-15\n",
 		"2022-06-15 (8h!)\n",
 	)
@@ -85,7 +86,7 @@ func init() {
 	fw.Register(&fw.Check{
 		ID:    "C18",
 		Title: "Colour and styling never change what is printed",
-		Rule: "33 documents (all structural shapes plus Unicode summaries and tags with wide, combining and astral characters, quoted tag values, negative / >99h / zero totals, 12-hour times, empty records) x 31 command lines " +
+		Rule: "34 documents (all structural shapes plus Unicode summaries and tags with wide, combining and astral characters, quoted tag values, negative / >99h / zero totals, 12-hour times, empty records) x 31 command lines " +
 			"(print, print --with-totals, total, report x 5 aggregations x fill/diff/chart/decimal/now, tags -v -c, today --diff --now) x 8 styling configurations " +
 			"({--no-style, NO_COLOR, colour_scheme=no_colour} unstyled; {default, dark, light, basic} styled; light+--no-style), all through the complete CLI. A case = (document, command, configuration); all distinct.",
 		Assumptions: []string{
